@@ -80,6 +80,9 @@ type relax struct {
 	// identical to (matchEntries pairs by identity and then by name one HEAD
 	// rule at a time).
 	nameSteal bool
+	// disableOrder: a file whose file/disable comments are the same set in another
+	// order may have its untouched rules reported as modified.
+	disableOrder bool
 }
 
 // stolen reports whether rule i of a HEAD file belongs to a (kind, name) group
@@ -147,6 +150,7 @@ func checkFile(path string, head hist.File, obs []Obs, base *hist.File, basePath
 		}
 		groups[k] = append(groups[k], i)
 	}
+	reordered := rx.disableOrder && ctlEqual && !moved && !reflect.DeepEqual(base.Disable, head.Disable)
 	var stolen map[string]bool
 	if rx.nameSteal {
 		stolen = stolenGroups(rules, base)
@@ -169,6 +173,9 @@ func checkFile(path string, head hist.File, obs []Obs, base *hist.File, basePath
 			var adm []string
 			if m > 0 {
 				adm = append(adm, unchanged)
+				if reordered {
+					adm = append(adm, "modified")
+				}
 			}
 			if nh > m {
 				switch {
@@ -197,6 +204,9 @@ func checkFile(path string, head hist.File, obs []Obs, base *hist.File, basePath
 			}
 		}
 		// the changed / not-changed split, with multiplicities
+		if reordered {
+			continue
+		}
 		if unchanged == "unmodified" && nUnmod != m {
 			return fmt.Errorf("%s: %s: %d copies at HEAD, %d in base version %s: expected exactly %d unmodified, pint reports %d",
 				path, rules[idx[0]].Describe(), nh, nb, basePath, m, nUnmod)
@@ -411,7 +421,9 @@ func judge(h hist.History, obs map[string][]Obs) (verdict, string, error) {
 		return v, "", err
 	}
 	if disableReordered(h) {
-		return v, classDisableReorder, err
+		if _, e2 := oracle(h, obs, relax{disableOrder: true}); e2 == nil {
+			return v, classDisableReorder, err
+		}
 	}
 	if _, e2 := oracle(h, obs, relax{nameSteal: true}); e2 == nil {
 		return v, classNameSteal, err
@@ -482,7 +494,6 @@ func disableReordered(h hist.History) bool {
 	}
 	return false
 }
-
 
 // generator -------------------------------------------------------------------
 
@@ -613,6 +624,7 @@ func TestPropHistory(t *testing.T) {
 				rec.KnownHit(id, c)
 				return
 			}
+			// development aid (never set by the driver): keep searching behind a class that is not listed yet
 			if os.Getenv("VERIF_C03_TOLERATE") != "" && class != "" && strings.Contains(os.Getenv("VERIF_C03_TOLERATE"), class) {
 				rec.Count("tolerated:"+class, 1)
 				return
